@@ -329,6 +329,92 @@ def strat_nested_unique(draw):
     return case
 
 
+# ---------------------------------------------------------------------------------- frame_na
+
+
+_FLOATS = [-1.0, 0.0, 0.5, 1.0, 1.5, 2.0, 3.0]
+
+
+@st.composite
+def strat_frame_na(draw):
+    """float frames with nulls under ONE dataframe-level built-in check with ignore_na=False: a null cell is shown to the
+    check and compares False, so it decides the verdict like any violating cell (half of the cases: the non-null cells all
+    satisfy the check, so only the nulls can reject)."""
+    n = draw(st.integers(1, 5))
+    names = list(draw(st.permutations(["a", "b", "c"])))[: draw(st.integers(1, 3))]
+    null_rate = draw(st.sampled_from([0, 1, 1, 2]))
+    cols = []
+    for nm in names:
+        cells = [None if draw(st.integers(0, 5)) < null_rate else draw(st.sampled_from(_FLOATS)) for _ in range(n)]
+        cols.append({"name": nm, "phys": "float64", "cells": cells})
+    vals = [c for t in cols for c in t["cells"] if c is not None] or [0.0]
+    lo, hi = min(vals), max(vals)
+    satisfied = draw(st.booleans())
+    kind = draw(st.sampled_from(["greater_than_or_equal_to", "less_than_or_equal_to", "greater_than", "less_than", "in_range",
+                                 "isin", "equal_to"]))
+    arg = st.sampled_from(_FLOATS)
+    if kind in ("greater_than_or_equal_to", "greater_than"):
+        args = {"min_value": (lo if kind.endswith("equal_to") else lo - 1) if satisfied else draw(arg)}
+    elif kind in ("less_than_or_equal_to", "less_than"):
+        args = {"max_value": (hi if kind.endswith("equal_to") else hi + 1) if satisfied else draw(arg)}
+    elif kind == "in_range":
+        a, b = (lo, hi) if satisfied else sorted([draw(arg), draw(arg)])
+        args = {"min_value": a, "max_value": b, "include_min": True, "include_max": True}
+    elif kind == "isin":
+        args = {"allowed_values": sorted(set(vals)) if satisfied else sorted(set(draw(st.lists(arg, min_size=1, max_size=3))))}
+    else:
+        args = {"value": vals[0] if satisfied and len(set(vals)) == 1 else draw(arg)}
+    declared = draw(st.booleans())  # with or without (nullable, check-free) column declarations
+    spec = {"kind": "dataframe", "index": None, "strict": False, "ordered": False,
+            "columns": [{"name": nm, "dtype": "float64", "nullable": True, "unique": False, "checks": [], "required": True}
+                        for nm in names] if declared else [],
+            "checks": [{"kind": kind, "args": args, "ignore_na": False}]}
+    return {"spec": spec, "table": {"columns": cols, "index": None}}
+
+
+def _holds(kind, args, v):
+    if kind == "greater_than_or_equal_to":
+        return v >= args["min_value"]
+    if kind == "greater_than":
+        return v > args["min_value"]
+    if kind == "less_than_or_equal_to":
+        return v <= args["max_value"]
+    if kind == "less_than":
+        return v < args["max_value"]
+    if kind == "in_range":
+        return args["min_value"] <= v <= args["max_value"]
+    if kind == "isin":
+        return v in args["allowed_values"]
+    return v == args["value"]
+
+
+def eval_frame_na(case):
+    ev = Eval()
+    spec, table = case["spec"], case["table"]
+    cs = spec["checks"][0]
+    cells = [c for t in table["columns"] for c in t["cells"]]
+    nulls = sum(1 for c in cells if c is None)
+    bad = sum(1 for c in cells if c is not None and not _holds(cs["kind"], cs["args"], c))
+    want_accept = nulls == 0 and bad == 0
+    ev.labels += ["check=" + cs["kind"], "nulls=" + ("yes" if nulls else "no"), "ref=" + ("accept" if want_accept else "reject"),
+                  "declared=" + ("yes" if spec["columns"] else "no")]
+    if nulls and not bad:
+        ev.labels.append("only-nulls-reject")
+    ev.nontrivial = bool(nulls) and not bad or want_accept
+    schema, data = sp.pandas_schema(spec), sp.pandas_frame(table)
+    for lazy in (False, True):
+        mode = "lazy" if lazy else "eager"
+        o = fp.outcome(lambda: schema.validate(data, lazy=lazy))
+        if o["kind"] in ("internal", "usage"):
+            ev.labels.append("internal-exception")
+            continue
+        accepted = o["kind"] == "ok"
+        if accepted != want_accept:
+            ev.add(("accepts-violating-data" if accepted else "rejects-conforming-data") + f":{mode}:frame-check-ignore_na-false",
+                   {"check": cs, "nulls": nulls, "violating_non_null_cells": bad, "reasons": o.get("reasons")})
+    return ev
+
+
 FAMILIES = [
     Family("frames", evaluate, strategy=lambda: gen.repaired_case(), n_quick=1400, n_thorough=6000, shards_quick=4,
            shards_thorough=16,
@@ -340,6 +426,8 @@ FAMILIES = [
            shards_thorough=8, required_labels=["reason=DUPLICATES", "ref=accept", "nested:absent-set-first"]),
     Family("int_labels", evaluate, strategy=lambda: gen.repaired_case().flatmap(gen.int_labelled), n_quick=500, n_thorough=3000,
            shards_quick=2, shards_thorough=8, required_labels=["ref=accept", "ref=reject", "has:regex", "int-labels"]),
+    Family("frame_na", eval_frame_na, strategy=strat_frame_na, n_quick=300, n_thorough=2000, shards_quick=2, shards_thorough=6,
+           required_labels=["only-nulls-reject", "ref=accept", "declared=no"]),
     Family("revalidate", eval_revalidate, strategy=strat_revalidate, n_quick=800, n_thorough=3000, shards_quick=3,
            shards_thorough=12, required_labels=["ref2=reject", "ref2=accept", "first=inplace", "kind=series"]),
 ]
